@@ -750,6 +750,7 @@ def r17(ctx, rep):
     import C03
     rep.borrowed(C03.r6, ctx, "C07.R17", "a Sort is pushed before every DISTINCT ON (it separates a preceding take and resets the inherited order)")
     rep.borrowed(C03.r1_r2, ctx, "C07.R18", "DISTINCT and aggregation reset the inherited order", only=r"^(reset|retain):")
+    rep.borrowed(C03.r3, ctx, "C07.R23", "the ORDER BY of an outer query names columns the CTE returns: sort keys are added to a CTE's SELECT unless that column is selected", only=r"^cte-projection")
 
 
 def r19(ctx, rep):
